@@ -234,7 +234,7 @@ static void emitFile(const IrModel &flat, const std::string &fileName, const std
             std::map<int, std::string> rn;
             rn[c] = "src_" + flat.comps[static_cast<size_t>(c)].name;
             ++fs.importedSubtrees;
-            emitFile(flat, child, {c}, rn, rng, importProb * 0.6, depth + 1, fs, false);
+            emitFile(flat, child, {c}, rn, rng, importProb * 0.6, depth + 1, fs, useUnitsLib);
             return;
         }
         present.push_back(c);
@@ -254,7 +254,7 @@ static void emitFile(const IrModel &flat, const std::string &fileName, const std
             std::map<int, std::string> rn;
             rn[t] = "src_" + flat.comps[static_cast<size_t>(t)].name;
             ++fs.importedSubtrees;
-            emitFile(flat, child, {t}, rn, rng, importProb * 0.6, depth + 1, fs, false);
+            emitFile(flat, child, {t}, rn, rng, importProb * 0.6, depth + 1, fs, useUnitsLib);
         } else {
             visit(t, true);
         }
@@ -356,7 +356,9 @@ static void emitFile(const IrModel &flat, const std::string &fileName, const std
             }
         }
     }
-    bool importUnits = useUnitsLib && depth == 0;
+    // (library files may import their units too: the flattener then has to instantiate, in the flat model, units that
+    // the LIBRARY imports, without touching the library)
+    bool importUnits = useUnitsLib && (depth == 0 || rng.chance(0.5));
     int unitsImport = -1;
     for (const auto &u : flat.units) {
         if (needed.count(u.name) == 0U) {
